@@ -3,7 +3,7 @@
    Model: Model/Handshake.v (message readers/writers over a symbolic duplex whose outputs,
    like X25519, ML-KEM and the certificate policy verdict, are oracles) and Model/HsServer.v
    (Server.readPacket). All theorems hold for every byte string and every oracle behaviour. *)
-From Hop Require Import Base Handshake HsServer HandshakeProofs HsServerProofs.
+From Hop Require Import Base Handshake HsServer HandshakeProofs HsServerProofs HsBindingProofs HsHonestProofs HsInstances.
 Open Scope N_scope.
 
 (* ---- client side, discoverable mode. The client accepts a ServerAuth only if the policy
@@ -165,3 +165,7 @@ Proof. vm_compute. reflexivity. Qed.
 Example c01_nonvacuous_reject :
   is_ok (snd (read_server_auth toyO toyX 1 0 [] (firstn 78 toy_sa ++ [9]))) = false.
 Proof. vm_compute. reflexivity. Qed.
+
+(* the hypothesis mac_binding of the *_under_mac_binding theorems is satisfiable *)
+Example c01_mac_binding_satisfiable : mac_binding injO.
+Proof. exact mac_binding_satisfiable. Qed.
